@@ -132,6 +132,9 @@ func Forwarder(dstAddr *net.UDPAddr, readCh <-chan *msg.UDPPacket, sendCh chan<-
 			if err != nil {
 				udpConn.Close()
 			}
+			// the local socket expires after 30s without traffic in either direction: a request
+			// keeps it open for its reply, not only the previous reply
+			_ = udpConn.SetReadDeadline(time.Now().Add(30 * time.Second))
 
 			if !ok {
 				go writerFn(udpMsg.RemoteAddr, udpConn)
